@@ -153,10 +153,16 @@ static sqf::runtime::runtime::result execute_do(sqf::runtime::runtime& runtime, 
         auto frame_count = context_active.frames_size();
         auto& frame = context_active.current_frame();
 
+        auto position_before = frame.position();
         auto result = frame.next(runtime);
 
         if (runtime_error)
         { // an exit behavior raised an error: it must not wait for (or miss) the next instruction
+            if (position_before != sqf::runtime::frame::position_invalid && frame.position() < position_before)
+            { // the behavior has restarted the frame for its next pass already: the error, and the
+              // stack trace entry of this frame, belong to the instruction the frame had reached
+                frame.seek(static_cast<long>(position_before) + 1, sqf::runtime::frame::seekpos::start);
+            }
             if (handle_runtime_error(frame.diag_info_from_position()))
             {
                 return sqf::runtime::runtime::result::runtime_error;
